@@ -465,6 +465,28 @@ class PCBO(PUBO):
             for k, v in args[0]._constraints.items():
                 self._constraints.setdefault(k, []).extend(v)
 
+    def __imul__(self, other):
+        """__imul__.
+
+        Same as ``PUBO.__imul__``. Multiplying in place by a dictionary
+        rebuilds ``self`` (via ``clear``), so we make sure that the recorded
+        constraints and the ancilla counter survive it.
+
+        Parameters
+        ----------
+        other : numeric or dict/DictArithmetic object.
+
+        Return
+        ------
+        self : PCBO.
+
+        """
+        constraints, ancilla = self._constraints, self._ancilla
+        # use self.__class__ here because PCSO uses this code as well.
+        super(self.__class__, self).__imul__(other)
+        self._constraints, self._ancilla = constraints, ancilla
+        return self
+
     @property
     def constraints(self):
         """constraints.
